@@ -15,7 +15,8 @@ Exp == GraphExp(Lng, ModelVal, Order)
 MinAssets == atoi(EnvOr("VERIF_MINASSETS", "1"))
 MinEdges == atoi(EnvOr("VERIF_MINEDGES", "0"))
 EmitG == (Len(vAssets) >= MinAssets /\ (MinEdges = 0 \/ Cardinality(EdgesHi(Lng, ModelVal)) >= MinEdges)) =>
-           PrintT(ToJson([lang |-> EnvOr("VERIF_LANG", "LTiny"), assets |-> vAssets, assocs |-> vAssocs, exp |-> Exp]))
+           PrintT(ToJson([lang |-> EnvOr("VERIF_LANG", "LTiny"), assets |-> vAssets, assocs |-> vAssocs, exp |-> Exp,
+                          abs |-> AbsLegacy, neo |-> [nodes |-> NeoNodes, rels |-> NeoRels]]))
 \* spec-level theorems over every explored pair
 SpecEdges == EdgesWellFormed(Lng, ModelVal)
 SpecNoTransExact == (\A T \in AssetNames(Lng) : \A i \in DOMAIN Fold(Lng, T) :
